@@ -80,7 +80,7 @@ def gen_grp(rng, name):
 
 
 def gen_cases(rng, tier):
-    n = 300 if tier == 'quick' else 6000
+    n = 300 if tier == 'quick' else 60000
     names = pool(rng)
     cases = []
     for i in range(n):
